@@ -232,6 +232,19 @@ fn hostile_footer(u: &mut Unstructured) -> arbitrary::Result<Vec<u8>> {
             s.push_str(*u.choose(&[",", ",M1.1.1", " ", "\0", "x"])?);
         }
     }
+    // a multi-byte character (or a lone continuation / lead byte) at any position: every byte-wise
+    // cursor step of the footer parser can land inside it
+    if u.ratio(1, 4)? && !s.is_empty() {
+        let mut cs: Vec<char> = s.chars().collect();
+        let pos = u.int_in_range(0..=cs.len() - 1)?;
+        let ch = if u.ratio(1, 2)? { *u.choose(&['é', '€', '😀', 'ß', '日'])? } else { crate::props::c11::random_non_ascii(u)? };
+        if u.ratio(1, 2)? {
+            cs[pos] = ch;
+        } else {
+            cs.insert(pos, ch);
+        }
+        s = cs.into_iter().collect();
+    }
     let mut b = s.into_bytes();
     if u.ratio(1, 20)? {
         b.push(0xff);
@@ -617,8 +630,8 @@ pub fn run(env: &mut Env) {
         Src::File { flavour: "slim".into(), file: "Europe__Zurich".into() },
         Src::File { flavour: "fat".into(), file: "Europe__Zurich".into() },
         Src::File { flavour: "fat".into(), file: "America__Sao_Paulo".into() },
-        Src::Synth(tzsyn::Synth { version: 1, types: vec![(3600, false), (7200, true)], transitions: vec![(0, 1), (1000, 0), (50_000_000, 1)], v1_populated: false, footer: None, indicators: true }),
-        Src::Synth(tzsyn::Synth { version: 3, types: vec![(-10_800, false), (-7200, true)], transitions: vec![(100, 1), (20_000_000, 0)], v1_populated: true, footer: Some("<-03>3<-02>,M10.1.0/-1,M2.3.0/25".into()), indicators: false }),
+        Src::Synth(tzsyn::Synth { version: 1, types: vec![(3600, false), (7200, true)], transitions: vec![(0, 1), (1000, 0), (50_000_000, 1)], v1_populated: false, footer: None, indicators: true, leaps: 0 }),
+        Src::Synth(tzsyn::Synth { version: 3, types: vec![(-10_800, false), (-7200, true)], transitions: vec![(100, 1), (20_000_000, 0)], v1_populated: true, footer: Some("<-03>3<-02>,M10.1.0/-1,M2.3.0/25".into()), indicators: false, leaps: 2 }),
     ];
     let bases: Vec<Src> = bases.into_iter().filter(|b| c18::bytes_of(b).is_ok()).collect();
     let bases = std::sync::Arc::new(bases);
@@ -663,9 +676,30 @@ pub fn run(env: &mut Env) {
                 }
             }
         }
+        // a 2-, 3- and 4-byte character replacing / inserted before every character of valid footers
+        for f in ["CET-1CEST,M3.5.0,M10.5.0/3", "<+0330>-3:30<+0430>,J79/24,J263/24", "EST5EDT,M3.2.0,M11.1.0", "<-03>3<-02>,M3.5.0/-2,M10.5.0/-1", "AEST-10AEDT,M10.1.0,M4.1.0/3", "IST-5:30", "WET0WEST,90/1,300/2"] {
+            let cs: Vec<char> = f.chars().collect();
+            for pos in 0..=cs.len() {
+                for ch in ['é', '€', '😀'] {
+                    for replace in [true, false] {
+                        if replace && pos == cs.len() {
+                            continue;
+                        }
+                        let mut m = cs.clone();
+                        if replace {
+                            m[pos] = ch;
+                        } else {
+                            m.insert(pos, ch);
+                        }
+                        let text: String = m.into_iter().collect();
+                        v.push(Case { base: base.clone(), muts: vec![Mut::Footer { text: text.into_bytes(), leading_nl: true, trailing_nl: true }], ts: vec![], resolve: pos % 5 == 0 });
+                    }
+                }
+            }
+        }
         v.into_iter()
     });
-    env.exhaustive_parts.push(format!("C19: {} base files x (12 header counts x 8 values, every byte of the two 20-byte header prefixes (magic, version, reserved) x 7 values, every truncation point (sampled above 400 bytes in quick), 40 transition-type bytes x 4 values, 13 hostile rule strings in both rule positions)", bases.len()));
+    env.exhaustive_parts.push(format!("C19: {} base files x (12 header counts x 8 values, every byte of the two 20-byte header prefixes (magic, version, reserved) x 7 values, every truncation point (sampled above 400 bytes in quick), 40 transition-type bytes x 4 values, 13 hostile rule strings in both rule positions, a 2-/3-/4-byte character replacing or inserted before every character of 7 valid footers)", bases.len()));
     env.run_random::<Hostile>(if t { 5_000_000 } else { 600_000 });
     env.run_random::<Loose>(if t { 3_000_000 } else { 400_000 });
     env.run_random::<Raw>(if t { 1_000_000 } else { 150_000 });
